@@ -448,7 +448,8 @@ class PyCanon:
 		"""Classification from Python semantics only: position and decorators."""
 		decos = [self.seg(d.func if isinstance(d, ast.Call) else d) for d in f.decorator_list]
 		if ctx == 'class':
-			kind = 'ClassMethod' if decos[:1] == ['classmethod'] else ('Constructor' if f.name == '__init__' else 'Method')
+			# a @staticmethod takes no receiver: a plain function in the class namespace (tranp has no separate class for it)
+			kind = 'ClassMethod' if decos[:1] == ['classmethod'] else ('Constructor' if f.name == '__init__' else ('Function' if 'staticmethod' in decos else 'Method'))
 		elif ctx == 'function':
 			kind = 'Closure'
 		else:
